@@ -112,16 +112,40 @@ def theorems_of(module):
     return out
 
 
+DRIVER_ROOT = 'Driver'      # root module of the driver binary in use (all-in-one, or Drv.Cxx in fallback)
+
+
 def build(prop, targets_extra=()):
+    global DRIVER_ROOT
     mods = props_files(prop)
-    targets = ['PyElf.Props.%s' % prop] if mods else []
-    targets += ['driver'] + list(targets_extra)
+    targets = (['PyElf.Props.%s' % prop] if mods else []) + list(targets_extra)
+    bindir = os.path.dirname(common.DRIVER)
     # the driver first, alone: a stale binary must never stand in for one that no longer builds
     rc_d, out_d, dt_d = sh(['lake', 'build', 'driver'], cwd=LEAN, timeout=3000)
-    if rc_d != 0 and os.path.exists(common.DRIVER):
-        os.unlink(common.DRIVER)
-    rc, out, dt = sh(['lake', 'build'] + targets, cwd=LEAN, timeout=3000)
-    out = out_d + out if rc_d != 0 else out
+    driver_note = None
+    if rc_d != 0:
+        if os.path.exists(common.DRIVER):
+            os.unlink(common.DRIVER)
+        # some model no longer builds.  Fall back to the driver of this property alone, so that a break
+        # stays inside the import closure of the property it concerns.
+        fb = 'driver_%s' % prop
+        rc_f, out_f, _ = sh(['lake', 'build', fb], cwd=LEAN, timeout=3000)
+        fbpath = os.path.join(bindir, fb)
+        if rc_f != 0:
+            if os.path.exists(fbpath):
+                os.unlink(fbpath)
+            out_d = out_d + out_f
+            driver_note = 'neither the all-in-one driver nor %s builds' % fb
+        else:
+            common.DRIVER = fbpath
+            os.environ['VERIF_DRIVER'] = fbpath
+            DRIVER_ROOT = 'Drv.%s' % prop
+            driver_note = 'all-in-one driver does not build (a module outside this property\'s closure is broken); using %s' % fb
+            rc_d, out_d = 0, ''
+    if targets:
+        rc, out, dt = sh(['lake', 'build'] + targets, cwd=LEAN, timeout=3000)
+    else:
+        rc, out, dt = 0, '', 0.0
     thms = []
     for m in mods:
         thms += theorems_of(m)
@@ -156,12 +180,13 @@ def build(prop, targets_extra=()):
                 if t['module'] in broken_modules or dep_broken:
                     failed.add(t['name'])
     return {'rc': rc, 'log': out, 'theorems': thms, 'failed': sorted(failed), 'broken_modules': sorted(broken_modules),
-            'driver_ok': driver_ok and (rc == 0 or os.path.exists(common.DRIVER)), 'wall': dt}
+            'driver_ok': driver_ok and (rc == 0 or os.path.exists(common.DRIVER)), 'wall': dt,
+            'driver_note': driver_note, 'driver_log': out_d if rc_d != 0 else ''}
 
 
 def import_closure(prop):
     """Lean source files (under lean/) that Props/<prop>.lean depends on, transitively (PyElf.* only)."""
-    seen, todo = set(), ['PyElf.Props.%s' % prop, 'Driver']
+    seen, todo = set(), ['PyElf.Props.%s' % prop, DRIVER_ROOT]
     files = []
     while todo:
         m = todo.pop()
@@ -332,6 +357,11 @@ def main():
         b = build(prop)
         if b['failed'] or b['rc'] != 0:
             tie_problems.append('lake build failed: theorems %s; modules %s' % (b['failed'], b['broken_modules']))
+        if b.get('driver_log'):
+            tie_problems.append('model driver does not build: ' + b['driver_note'])
+        elif b.get('driver_note'):
+            log(b['driver_note'])
+            gen_rep['driver'] = b['driver_note']
         au = audit(prop, [t for t in b['theorems'] if t['name'] not in b['failed']]) if os.path.exists(common.DRIVER) else {'ok': False, 'axioms': {}, 'bad_axioms': {}, 'bad_tokens': [], 'missing': []}
         if not au['ok']:
             if au.get('bad_axioms'):
@@ -352,12 +382,13 @@ def main():
     fcntl.flock(lock, fcntl.LOCK_UN)
 
     if not os.path.exists(common.DRIVER):
-        log(b.get('log', '')[-3000:])
+        log((b.get('driver_log') or b.get('log', ''))[-3000:])
         log('driver could not be built; cannot run')
         # the tie is broken and nothing can be searched
-        payload = {'property': prop, 'no_failing_input_found': True, 'broken': tie_problems, 'build_log_tail': b.get('log', '')[-3000:]}
+        payload = {'property': prop, 'no_failing_input_found': True, 'broken': tie_problems,
+                   'build_log_tail': (b.get('driver_log', '') + b.get('log', ''))[-3000:]}
         path = write_replay(prop, payload)
-        write_evidence(prop, tier, seed, {'obligations': max(1, len(b['theorems'])), 'discharged': 0,
+        write_evidence(prop, tier, seed, {'obligations': max(1, len(b['theorems'])), 'discharged': len(b['theorems']) - len(b['failed']),
                                           'checker_cmd': 'lake build PyElf.Props.%s' % prop, 'trusted_base': TRUSTED_BASE,
                                           'explanation': 'driver did not build'}, time.time() - t0, 1, [])
         print('VIOLATION property=%s replay=%s no-failing-input-found' % (prop, path))
@@ -405,7 +436,7 @@ def main():
         'trusted_base': TRUSTED_BASE,
         'theorems': {t['name']: ('failed' if t['name'] in b['failed'] else 'ok') for t in b['theorems']},
         'axioms': au.get('axioms', {}),
-        'translator': {k: gen_rep.get(k) for k in ('tables', 'table_entries', 'cons', 'elf_bundles', 'dwarf_bundles', 'refusals', 'pure', 'leanchecker') if k in gen_rep},
+        'translator': {k: gen_rep.get(k) for k in ('tables', 'table_entries', 'cons', 'elf_bundles', 'dwarf_bundles', 'refusals', 'pure', 'leanchecker', 'driver') if k in gen_rep},
         'evaluations': out.evaluations,
         'distinct_nontrivial': len(out.distinct),
         'rule': getattr(mod, 'RULE', ''),
